@@ -57,6 +57,8 @@ type Input struct {
 	// Prior: a document merklized FIRST into a caller-provided tree (WithMerkleTree); Doc is then
 	// merklized into the same tree (two revisions of one document, persistent tree)
 	Prior json.RawMessage `json:"prior,omitempty"`
+	// ViaBinary: the observations are made on MerklizerFromBytes(mz.MarshalBinary(), WithHasher(h), loader)
+	ViaBinary bool `json:"via_binary,omitempty"`
 }
 
 // jv is a JSON value as RawValue returns it.
@@ -145,6 +147,8 @@ type drv struct {
 	gen    *docgen.Gen
 	// prior: see Input.Prior (set by the caller of docCase for the next document only)
 	prior []byte
+	// viaBinary: see Input.ViaBinary (set by the caller for the next document only)
+	viaBinary bool
 	// ordering classes are reported once per document
 	docReported map[string]bool
 }
@@ -471,6 +475,31 @@ func (d *drv) docCaseP(stream string, doc []byte, hi int, ctxs map[string]json.R
 			}
 		}
 		mz, mo = mzrun.Merklize(doc, opts...)
+		if d.viaBinary && d.prior == nil && in.Prior == nil && mo.Class == "ok" {
+			// C10 must hold for a binary-restored merklizer too
+			in.ViaBinary = true
+			var restored *merklize.Merklizer
+			ro := mzrun.Guard(30*time.Second, func() error {
+				b, err := mz.MarshalBinary()
+				if err != nil {
+					return err
+				}
+				m2, err := merklize.MerklizerFromBytes(b, merklize.WithHasher(h), merklize.WithDocumentLoader(d.loader))
+				restored = m2
+				return err
+			})
+			d.rep.Count(stream + ":via-binary:" + ro.Class)
+			if ro.Class != "ok" || restored == nil {
+				d.rep.Fail("c10-restore-"+ro.Class, "MarshalBinary / MerklizerFromBytes of a merklized document failed: "+ro.Msg, in)
+				d.viaBinary = false
+				return false
+			}
+			if restored.Root().BigInt().Cmp(mz.Root().BigInt()) != 0 {
+				d.rep.Fail("c10-restored-root", "the binary-restored merklizer has another root than the original", in)
+			}
+			mz = restored
+		}
+		d.viaBinary = false
 	}
 	d.rep.Count(stream + ":merklize:" + mo.Class)
 	if mo.Class == "panic" || mo.Class == "hang" {
@@ -937,6 +966,7 @@ func Run(cfg *common.Config) (*common.Report, error) {
 		if len(rf.Input.Prior) > 0 {
 			d.prior = rf.Input.Prior
 		}
+		d.viaBinary = rf.Input.ViaBinary
 		d.docCaseP("replay", rf.Input.Doc, rf.Input.Hasher, rf.Input.Contexts, rf.Input.Pinned)
 		for _, f := range rep.Failures {
 			fmt.Printf("replay: [%s] %s\n", f.Class, f.What)
@@ -955,6 +985,11 @@ func Run(cfg *common.Config) (*common.Report, error) {
 			hi = cfg.Rng.Intn(len(d.hs))
 		}
 		d.docCase("docgen", doc.Bytes, hi, d.contextsOf(doc.Bytes))
+		if i%3 == 1 {
+			// the same document observed on a binary-restored merklizer (WithHasher(#hi) on both sides)
+			d.viaBinary = true
+			d.docCase("restored", doc.Bytes, hi, d.contextsOf(doc.Bytes))
+		}
 		if i%3 == 0 {
 			// the same document, merklized without WithHasher while hasher #hi is the package
 			// default, observed after merklize.SetHasher(another hasher)
@@ -1008,6 +1043,10 @@ func Run(cfg *common.Config) (*common.Report, error) {
 		doc := gridDoc(cfg, i)
 		hi := i % len(d.hs)
 		d.docCase("grid", doc, hi, nil)
+		if i%4 == 1 {
+			d.viaBinary = true
+			d.docCase("restored", doc, hi, nil)
+		}
 		if i%8 == 0 {
 			d.docCaseP("pinned", doc, hi, nil, true)
 		}
